@@ -30,8 +30,24 @@ class TreeGen:
         self.leaves = []  # (python object, deep copy)
 
     def rmat(self, n=None):
+        """random complex matrix; one in three has structure (diagonal, lower / upper triangular, strictly
+        lower: ladder-operator like, Hermitian, real) so that shortcuts for special matrices are reached"""
         n = n or self.n
-        return (self.rs.randn(n, n) + 1j * self.rs.randn(n, n)) * 0.6
+        m = (self.rs.randn(n, n) + 1j * self.rs.randn(n, n)) * 0.6
+        k = self.rng.random()
+        if k < 0.06:
+            m = np.diag(np.diag(m))
+        elif k < 0.13:
+            m = np.tril(m)
+        elif k < 0.19:
+            m = np.triu(m)
+        elif k < 0.25:
+            m = np.tril(m, -1)
+        elif k < 0.29:
+            m = (m + m.conj().T) / 2
+        elif k < 0.33:
+            m = m.real.astype(complex)
+        return m
 
     def leaf(self, kind, want):
         r = self.rng
